@@ -378,6 +378,10 @@ def run_tasks(fn, seed, total, nproc, chunk):
         c = min(chunk, left)
         tasks.append((seed * 1000003 + k, c))
         left -= c; k += 1
+    return run_parallel_tasks(fn, tasks, nproc)
+
+
+def run_parallel_tasks(fn, tasks, nproc):
     res = vmstream.run_parallel(tasks, nproc, fn)
     tot = dict(n=0, stats=collections.Counter(), labels=collections.Counter(), disagreements=[], violations=[],
                samples=[], distinct=0, oracle_calls=0)
